@@ -273,6 +273,38 @@ def secExtent (d : D) (s : Nat) : D × Option (Int × Int) :=
   if 0 < t.length ∧ t.length = (d'.bisOf s).length then (d', some (treeBegin t, treeEnd t - treeBegin t - 1))
   else (d', none)
 
+/-- `Module.sections_on` / `IR.sections_on` = `util.nodes_on(self.sections, addrs)`:
+a linear scan over `Section.address` / `Section.size` (each of which forces the
+section's interval index); the node's range must intersect the envelope of the
+query -/
+def secsOn (d : D) (ss : List Nat) (r : Rng) : D × List Nat :=
+  ss.foldl (fun acc s =>
+    let (d', e) := secExtent acc.1 s
+    match e with
+    | some (a, z) => if max r.start a < min r.stop (a + z) then (d', acc.2 ++ [s]) else (d', acc.2)
+    | none => (d', acc.2)) (d, [])
+
+/-- `sections_at` = `util.nodes_at`: the section's address is a member of the range -/
+def secsAt (d : D) (ss : List Nat) (r : Rng) : D × List Nat :=
+  ss.foldl (fun acc s =>
+    let (d', e) := secExtent acc.1 s
+    match e with
+    | some (a, _) => if r.mem a then (d', acc.2 ++ [s]) else (d', acc.2)
+    | none => (d', acc.2)) (d, [])
+
+/-- specification side: a section's extent by scanning its intervals -/
+def scanExtent (d : D) (s : Nat) : Option (Int × Int) :=
+  let bis := d.bisOf s
+  if bis.isEmpty || bis.any (fun x => x.addr.isNone) then none
+  else
+    let addrs := bis.filterMap (fun x => x.addr.map fun a => ((a : Int), (a : Int) + x.size))
+    match addrs with
+    | [] => none
+    | p :: ps =>
+      let lo := ps.foldl (fun m q => if q.1 < m then q.1 else m) p.1
+      let hi := ps.foldl (fun m q => if q.2 > m then q.2 else m) p.2
+      some (lo, hi - lo)
+
 /-! ### the fresh scan the lookups are compared with (specification side) -/
 
 def scanBlocksOnOffset (d : D) (x : Nat) (r : Rng) : List Nat :=
@@ -421,6 +453,8 @@ def driverStep (d : D) (line : String) : D × String :=
       else if fn == "sbisat" then one secBisAt
       else if fn == "sbon" then one secBlocksOn
       else if fn == "sbat" then one secBlocksAt
+      else if fn == "secson" then let (d', res) := secsOn d xs r; (d', showIds res)
+      else if fn == "secsat" then let (d', res) := secsAt d xs r; (d', showIds res)
       else (d, "bad-op")
     | _, _ => (d, "bad-op")
   | ["ext", s] =>
